@@ -7,6 +7,9 @@ and reference inputs through their own entry points.
 """
 
 import copy
+import json
+import os
+import sys
 
 import numpy as np
 
@@ -241,9 +244,82 @@ def cli_cases(tier):
     return out
 
 
+# ---- an option the equilibrium was built with is MISSING from the mesh settings ----------------
+DROP_SRC = r"""
+import sys, io, contextlib, warnings, json
+sys.path.insert(0, %r)
+warnings.simplefilter("ignore")
+from vlib import families, lattice, genworker
+from hypnotoad.core.mesh import BoutMesh
+eq_extra, drop = json.loads(sys.argv[1])
+c = families.normalise(lattice.mk("lsn", True, opt=eq_extra))
+inp = families.build_inputs(c)
+inp["_fpol_kind"] = c["fpol"]; inp["_pressure_kind"] = c["pressure"]
+with contextlib.redirect_stdout(io.StringIO()):
+    eq = genworker.build_equilibrium(c, inp, {})
+    mo = {k: v for k, v in c["options"].items() if k not in drop}
+    try:
+        BoutMesh(eq, mo)
+        print("OUTCOME=accepted", flush=True)
+    except Exception as e:
+        sys.stdout = sys.__stdout__
+        print("OUTCOME=rejected %%s" %% type(e).__name__, flush=True)
+import json
+import os
+import sys
+sys.stdout = sys.__stdout__
+os._exit(0)
+"""
+
+
+def mesh_drop_cases():
+    """(extra equilibrium options, keys omitted from the mesh's settings): the equilibrium holds a
+    non-default value of an option that the mesh also owns; a mesh built from settings that do
+    not mention the key would silently use (and record) the default: must be rejected"""
+    return [
+        (dict(), ["psi_spacing_separatrix_multiplier"]),          # base value 0.5, default None/1
+        (dict(), ["y_boundary_guards"]),                           # base value 1, default 0
+        (dict(), ["finecontour_Nfine"]),                           # base value 50, default 100
+        (dict(psi_interpolation_method="dct"), ["psi_interpolation_method"]),
+        (dict(poloidal_spacing_delta_psi=1e-3), ["poloidal_spacing_delta_psi"]),
+        (dict(orthogonal=False), ["orthogonal"]),
+    ]
+
+
+def run_drop_case(case):
+    import subprocess, signal
+    p = subprocess.Popen([sys.executable, "-c", DROP_SRC % (os.path.dirname(os.path.dirname(os.path.abspath(__file__))),),
+                          json.dumps(case)], stdout=subprocess.PIPE, stderr=subprocess.DEVNULL, text=True,
+                         start_new_session=True, env=dict(os.environ, MPLBACKEND="Agg"))
+    try:
+        out, _ = p.communicate(timeout=600)
+    except subprocess.TimeoutExpired:
+        out = "OUTCOME=timeout"
+    finally:
+        try:
+            os.killpg(p.pid, signal.SIGKILL)
+        except ProcessLookupError:
+            pass
+    for line in (out or "").splitlines():
+        if line.startswith("OUTCOME="):
+            return line[8:]
+    return "crashed"
+
+
 def run(ctx):
     stats = dict(validated_grids=0, hostile=0, hostile_refused=0, hostile_grids=0, must_reject=0,
                  shipped=0, cells_fold_tested=0)
+    from concurrent.futures import ThreadPoolExecutor
+    dc = mesh_drop_cases()
+    with ThreadPoolExecutor(6) as tp:
+        for case, res in zip(dc, tp.map(run_drop_case, dc)):
+            stats["must_reject"] += 1
+            stats["mesh_settings_missing_a_key_cases"] = stats.get("mesh_settings_missing_a_key_cases", 0) + 1
+            if not res.startswith("rejected"):
+                ctx.violation("invalid, unknown or inconsistent option accepted silently | mesh settings omit an option "
+                              "the equilibrium was built with a non-default value of",
+                              dict(equilibrium_extra=case[0], omitted=case[1], outcome=res),
+                              replay=dict(kind="drop", case=case))
     arts = gu.rotate(gu.select(ctx.tier, log=ctx.log), ctx.seed)
     H = hostile(ctx.tier)
     CL = cli_cases(ctx.tier)
